@@ -7,4 +7,5 @@ INVARIANT AddEquiv
 INVARIANT ImplAddEquiv
 INVARIANT LessEquiv
 INVARIANT RoundTrip
+INVARIANT PlaceEquiv
 CHECK_DEADLOCK FALSE
